@@ -75,6 +75,17 @@ AcceptShape(kind) ==
       [] kind = "publish" -> <<"UC:StreamBegin", "Publish.Start">>
       [] kind = "play" -> <<"Play.Reset", "UC:StreamBegin", "Play.Start", "SampleAccess", "Data.onStatus">>
 
+\* informational results (not mentioned by the listed properties): which of them an input produces
+InfoKinds == {"AckRecv", "PingRespRecv", "ClientChunkSizeChanged", "UnhandleableAmf0Command", "ReleaseStreamRequested"}
+InfoOf(rs) == SelectSeq(rs, LAMBDA x : (x.k = "event" /\ x.o \in InfoKinds) \/ x.k = "unhandled")
+InfoOK(i, rs) ==
+    LET g == InfoOf(rs) IN
+    CASE i.m = "ack"         -> Len(g) = 1 /\ g[1].k = "event" /\ g[1].o = "AckRecv" /\ g[1].v = i.v
+      [] i.m = "pingresp"    -> Len(g) = 1 /\ g[1].k = "event" /\ g[1].o = "PingRespRecv" /\ g[1].ts = i.ts
+      [] i.m = "unknowncmd"  -> Len(g) = 1 /\ g[1].k = "event" /\ g[1].o = "UnhandleableAmf0Command"
+      [] i.m = "unknowntype" -> Len(g) = 1 /\ g[1].k = "unhandled" /\ g[1].ty = i.ty
+      [] OTHER -> Len(g) = 0
+
 \* control messages carry the session uptime (the clock hook makes it known); media carries the caller's timestamp
 ClockOK(outs, clk) == \A k \in 1 .. Len(outs) :
     outs[k].msg.k \in {"Audio", "Video", "SetChunkSize", "Undecodable"} \/ outs[k].ts = clk
@@ -199,6 +210,7 @@ DoStep ==
                ELSE TRUE
             /\ IF verdictSrv = "" /\ ~ProbeOK(Ev.probe, r.st) THEN Say("PROBE", "session state differs from the model after " \o i0.m) ELSE TRUE
             /\ IF verdictSrv = "" /\ ~ClockOK(rs2, Ev.clk) THEN Say("SHAPE", "a control message does not carry the session uptime (" \o i0.m \o ")") ELSE TRUE
+            /\ IF verdictSrv = "" /\ Ev.res = "ok" /\ ~InfoOK(i0, rs) THEN Say("SHAPE", "informational results differ from the usual ones (" \o i0.m \o ")") ELSE TRUE
             /\ IF verdictSrv = "" /\ i0.m = "accept" /\ ~wantErr /\ Kinds(gotO) # AcceptShape(st.reqs[i0.id].k)
                THEN Say("SHAPE", "acceptance of a " \o st.reqs[i0.id].k \o " request does not consist of the usual messages") ELSE TRUE
     /\ st' = r.st
